@@ -439,6 +439,29 @@ def check(ctx, rep):
     MR_ = roles.map_roles(ctx)
     trans_rule(ctx, rep, [c for c in prog.subclasses(MR_.mf)], P_.dispatch, P_.lock)
     addcb_rule(ctx, rep)
+    from .c02 import dispatch_rule
+    dispatch_rule(ctx, rep)
+    # f_apply is a composition of with_map / with_flat_map stages (no error function): the rows of the map table
+    # it goes through -- input cancelled / value / failed without error function, and the flat-map hand-over --
+    # are part of its correctness ("if any input fails the output fails with that exception").  Shared with C13.
+    from . import c13
+    from ..core import Report
+    sub = Report(rep.pid, ctx)
+    c13.check(ctx, sub)
+    rep.rule("R-MAPTABLE", "the map / flat-map stages f_apply is built from: delegate cancelled -> cancelled; value -> fn(value) (flat-map: the returned future becomes the delegate); failed, no error function -> the same exception, decided by `exception() is not None`; executors keep and pass on fn")
+    for o in sub.obs:
+        if o.rule in ("R-TRANS", "R-ADDCB", "R-DISPATCH"):
+            continue
+        k = o.key
+        if k.split(":")[0].split(" ")[0] in ("NoCancelFuture", "ProxyFuture", "ThrottleFuture"):
+            continue
+        if ("error_fn" in k or "error function" in k) and "no error_fn" not in k:
+            continue
+        if k.startswith("f_map =") or k.startswith("f_flat_map ="):
+            continue
+        if k.endswith("all table rows reached"):
+            continue  # includes the error-function rows, which f_apply never goes through
+        rep.ob("R-MAPTABLE", k, o.ok, o.detail, o.where, o.trace)
     from .c17 import probe_rule
     rep.rule("R-PROBE", "library code that handles a future it was given never uses hasattr/getattr on it with a name outside the Future API (a proxy argument would forward the lookup to the awaited result and the failure would never be copied to the output)")
     probe_rule(ctx, rep, "R-PROBE")
